@@ -38,7 +38,7 @@ CONFUSABLE = [((1, 2), [1, 2]), (Plain(x=1), Other(x=1)), (1, True), (1, 1.0), (
               ({'a': 1}, Plain(a=1)), (0, False), ('1', 1), ((1,), [1]),
               # texts that occur in playback's own keys: the operation alias, whole key texts, the aliases of the scripted
               # classes (a key scheme that searches or rewrites key *texts* confuses arguments with structure)
-              ('_tape_recorder_operation', 'output: _tape_recorder_operation #1.output'), ('ia5', 'ia1'),
+              ('_tape_recorder_operation', 'output: _tape_recorder_operation #1.output'), ('input', 'ia1'),
               ('input: ia1 args=[1], kwargs=[]', 'ia2.res'), ('oa1', 'output: oa1 #1.result')]
 
 
